@@ -4641,6 +4641,14 @@ where
         self.as_triangulation().vertex_coords(v)
     }
 
+    /// Building the initial simplex replaces the whole `Tds`, so every vertex gets a new key and
+    /// the keys held by the spatial index go stale. Drop the index; it is re-seeded lazily.
+    fn drop_spatial_index_after_bootstrap(&mut self, had_cells: bool) {
+        if !had_cells && self.tri.tds.number_of_cells() > 0 {
+            self.spatial_index = None;
+        }
+    }
+
     fn ensure_spatial_index_seeded(&mut self) {
         if self.spatial_index.is_some() {
             return;
@@ -4781,6 +4789,7 @@ where
             )
         });
 
+        let had_cells = self.tri.tds.number_of_cells() > 0;
         let insertion_result = (|| {
             let hint = self.insertion_state.last_inserted_cell;
             let (outcome, _stats) = {
@@ -4799,6 +4808,7 @@ where
                     vertex_key: v_key,
                     hint,
                 } => {
+                    self.drop_spatial_index_after_bootstrap(had_cells);
                     self.insertion_state.last_inserted_cell = hint;
                     self.insertion_state.delaunay_repair_insertion_count = self
                         .insertion_state
@@ -4884,6 +4894,7 @@ where
             )
         });
 
+        let had_cells = self.tri.tds.number_of_cells() > 0;
         let insertion_result = (|| {
             let hint = self.insertion_state.last_inserted_cell;
             let (outcome, stats) = {
@@ -4900,6 +4911,7 @@ where
             let outcome = match outcome {
                 InsertionOutcome::Inserted { vertex_key, hint } => {
                     let mut hint = hint;
+                    self.drop_spatial_index_after_bootstrap(had_cells);
                     self.insertion_state.last_inserted_cell = hint;
                     self.insertion_state.delaunay_repair_insertion_count = self
                         .insertion_state
